@@ -73,6 +73,10 @@ for line in iter(sys.stdin.buffer.readline, b""):
 '''
 
 ENTRY_TIMEOUT_S = 45.0
+# directory names the witness lives in (part of the configured command, byte for byte): whitespace, quotes, backslash,
+# shell and glob metacharacters, a leading-tilde look-alike, non-ASCII
+CMD_STYLES = [" my servers", "'s tools", "\\back\\slash", ' "quoted" dir', " $HOME ${X}", "~user", " *?[a-z]", " ünï-日本", "  two  spaces ",
+              " a;b|c&d", " #hash", " (paren)", "\ttab"]
 # `load_config` opens the file with the locale's encoding; raw UTF-8 files are only written where that is UTF-8
 import locale as _locale
 UTF8_FILES = _locale.getpreferredencoding(False).lower().replace("-", "") in ("utf8",)
@@ -437,7 +441,9 @@ def run_case(case):
             # `@W<i>`: a witness named by its path; bare: copies of one witness NAME in several directories,
             # some of them on the host process's PATH, some named in configured PATH values (`@D<i>`)
             for i in sorted(set(placeholders(doc)) | set(bare.get("dirs", []))):
-                d = os.path.join(tmp, f"w{i}")
+                # the configured command is a PATH: its text may contain anything a path may contain
+                style = CMD_STYLES[(i + case["cmdstyle"]) % len(CMD_STYLES)] if "cmdstyle" in case else ""
+                d = os.path.join(tmp, f"w{i}{style}")
                 os.mkdir(d)
                 p = os.path.join(d, bare["name"] if i in bare.get("dirs", []) else "witness")
                 with open(p, "w") as f:
